@@ -6,8 +6,8 @@ import ast
 from ..core import Ctx
 from ..localnames import load_table
 from ..match import _atoms_with_polarity, arg, call_name, calls, fact_of, facts_at, is_param, local_defs, resolve, single_def, stores
-from ..model import (NOCONST, AnalysisError, FuncInfo, chain, clone, const_value, enclosing_stmt, head, norm, parent, strip_cast,
-                     walk_no_nested)
+from ..model import (NOCONST, AnalysisError, FuncInfo, ancestors, chain, clone, const_value, enclosing_function, enclosing_stmt, head, norm, parent,
+                     strip_cast, walk_no_nested)
 
 LEVEL = "other"
 EXPLANATION = (
@@ -20,6 +20,10 @@ EXPLANATION = (
     "with one caller; relay-side create/extend pairing by cache number, and the relay installs relay_from_to[..] only under the "
     "to/from circuit ids of its own popped CreateRequestCache, keyed from the origin's exit socket, under the dominating fact that "
     "the origin circuit still is an exit socket (an established relay hop is never rewired by an answer). "
+    "Membership facts are read from what a test computes: ``T.get(k, D) is not D`` / ``!= D`` with one stable D (None, a module or "
+    "non-loop local sentinel bound to object(), a class constant) or a truthy ``T.get(k)`` give ``k in T`` (get returns exactly D for a "
+    "missing key; the converse direction is not concluded), ``k in T.keys()`` / ``set(T)``, ``T.__contains__(k)`` and one-element set "
+    "algebra ({k} <= T.keys(), issubset / issuperset / isdisjoint, {k} & T.keys()) are ``k in T`` with the corresponding polarity. "
     "Answering side: exit sockets (the keys of the hop towards the sender of a CREATE) are installed only by join_circuit, under an "
     "in-use test of the circuit id made after the last await, and removed only by remove_exit_socket, so a CREATE never re-keys an "
     "established hop; the EXTEND request names key and address of one and the same peer on every pair of reaching definitions. "
@@ -1042,6 +1046,157 @@ def _membership_parts(mod, e: ast.AST, depth: int = 4) -> list[ast.AST] | None:
     return None
 
 
+def _same_stable_value(v: _View, a: ast.AST, b: ast.AST, op: str) -> bool:
+    """
+    a and b (written in v's function) are two evaluations of one identity-stable expression, so that ``a is b`` (op "is") or
+    ``not (a != b)`` (op "eq") certainly holds: the same singleton literal, the same module-level / parameter name that the function never
+    rebinds (a sentinel ``_MISSING = object()``), the same member ``Cls.NAME`` of a class.  For "eq" the value must also be
+    known to compare equal to itself with the default ``!=`` (a literal, or a name bound once at module level to ``object()`` / a literal).
+    """
+    a, b = strip_cast(a), strip_cast(b)
+    ca, cb = const_value(a), const_value(b)
+    if ca is not NOCONST or cb is not NOCONST:
+        if ca is NOCONST or cb is NOCONST:
+            return False
+        if ca is None or ca is True or ca is False or ca is Ellipsis:
+            return ca is cb
+        return op == "eq" and type(ca) is type(cb) and isinstance(ca, (int, str, bytes)) and ca == cb
+    repo, mod = v.ctx.repo, v.fi.module
+    if isinstance(a, ast.Name) and isinstance(b, ast.Name) and a.id == b.id and not is_param(v.fi, a.id):
+        ds = local_defs(v.fi, a.id)
+        if len(ds) == 1 and ds[0][2] is None and isinstance(ds[0][0], ast.Assign) and enclosing_function(ds[0][0]) is v.fi.node \
+                and not any(isinstance(p, (ast.For, ast.AsyncFor, ast.While)) for p in ancestors(ds[0][0])):
+            # a local bound by one plain statement outside every loop (run at most once per call): one value per call
+            x = strip_cast(ds[0][1])
+            fresh_obj = isinstance(x, ast.Call) and isinstance(x.func, ast.Name) and x.func.id == "object" and not x.args and not x.keywords \
+                and _is_builtin(mod, x.func, "object")
+            return op == "is" or fresh_obj
+    if isinstance(a, ast.Name) and isinstance(b, ast.Name) and a.id == b.id and not local_defs(v.fi, a.id):
+        if not is_param(v.fi, a.id):
+            # a module-level name: bound at most once in the whole file and never declared global / deleted (no function rebinds it)
+            binds = sum(1 for x in ast.walk(mod.tree) if isinstance(x, ast.Name) and x.id == a.id and not isinstance(x.ctx, ast.Load))
+            if binds > 1 or any(isinstance(x, (ast.Global, ast.Nonlocal)) and a.id in x.names for x in ast.walk(mod.tree)):
+                return False
+        if op == "is":
+            return True
+        if is_param(v.fi, a.id):
+            return False
+        try:
+            r = repo.resolve_name(mod, a.id)
+        except Exception:  # noqa: BLE001
+            return False
+        if isinstance(r, tuple) and len(r) == 3 and r[0] == "const":
+            x = strip_cast(r[2])
+            return isinstance(x, ast.Constant) and isinstance(x.value, (int, str, bytes, type(None))) \
+                or isinstance(x, ast.Call) and isinstance(x.func, ast.Name) and x.func.id == "object" and not x.args and not x.keywords \
+                and _is_builtin(r[1], x.func, "object")
+        return False
+    if op == "is" and isinstance(a, ast.Attribute) and isinstance(b, ast.Attribute) and a.attr == b.attr \
+            and isinstance(a.value, ast.Name) and isinstance(b.value, ast.Name) and a.value.id == b.value.id \
+            and not local_defs(v.fi, a.value.id) and not is_param(v.fi, a.value.id):
+        try:
+            r = repo.resolve_name(mod, a.value.id)
+        except Exception:  # noqa: BLE001
+            return False
+        # a class-level name of a class (enum member / class constant), not a property or other descriptor defined by a def
+        if type(r).__name__ != "ClassInfo" or r.lookup(a.attr) is not None or r.lookup_attr(a.attr) is None:
+            return False
+        x = strip_cast(r.lookup_attr(a.attr))       # a plain value, not a descriptor object
+        return isinstance(x, ast.Constant) or isinstance(x, ast.Call) and isinstance(x.func, ast.Name) and x.func.id in ("object", "auto") \
+            and not x.args and not x.keywords
+    return False
+
+
+def _get_call_of(v: _View, e: ast.AST | None) -> ast.Call | None:
+    """the ``T.get(k[, d])`` call that e is (directly, as ``(x := T.get(..))``, or as a single-assignment local)"""
+    e = strip_cast(e) if e is not None else None
+    if isinstance(e, ast.NamedExpr):
+        e = strip_cast(e.value)
+    if isinstance(e, ast.Name):
+        sd = single_def(v.fi, e.id)
+        if sd is None or sd[1] is not None:
+            return None
+        e = strip_cast(sd[0])
+        if isinstance(e, ast.NamedExpr):
+            e = strip_cast(e.value)
+    if isinstance(e, ast.Call) and isinstance(e.func, ast.Attribute) and e.func.attr == "get" and len(e.args) in (1, 2) and not e.keywords \
+            and not any(isinstance(x, ast.Starred) for x in e.args):
+        return e
+    return None
+
+
+def _present_by_get(v: _View, op: str, pos: bool, side: ast.AST, other: ast.AST | None) -> ast.Compare | None:
+    """
+    ``k in T`` when the fact says that a mapping lookup with a default did not give the default back: ``T.get(k, D) is not D`` /
+    ``T.get(k, D) != D`` (D the same stable value twice - None, a module sentinel, an enum member), or ``T.get(k[, falsy literal])``
+    is truthy.  For a missing key get() returns exactly D, so each of these tests fails then - whatever the stored entries are.
+    (The converse - the default came back, hence the key is missing - would need 'no entry is D' and is not concluded.)
+    """
+    g = _get_call_of(v, side)
+    if g is None:
+        return None
+    if op == "truthy":
+        ok = pos and (len(g.args) == 1 or isinstance(strip_cast(g.args[1]), ast.Constant) and not strip_cast(g.args[1]).value)
+    elif op in ("is", "eq") and not pos and other is not None:
+        ok = _same_stable_value(v, g.args[1] if len(g.args) == 2 else ast.Constant(value=None), other, op)
+    else:
+        ok = False
+    return ast.Compare(left=g.args[0], ops=[ast.In()], comparators=[g.func.value]) if ok else None
+
+
+def _keys_base(mod, e: ast.AST | None) -> ast.AST | None:
+    """X when membership in e is membership in X for a mapping X: ``X.keys()``, ``set(X)`` / ``frozenset / list / tuple / iter (X)``"""
+    x, changed = (strip_cast(e) if e is not None else None), False
+    for _ in range(4):
+        if isinstance(x, ast.Call) and isinstance(x.func, ast.Attribute) and x.func.attr == "keys" and not x.args and not x.keywords:
+            x, changed = strip_cast(x.func.value), True
+        elif isinstance(x, ast.Call) and len(x.args) == 1 and not x.keywords and not isinstance(x.args[0], ast.Starred) \
+                and any(_is_builtin(mod, x.func, n) for n in ("set", "frozenset", "list", "tuple", "iter")):
+            x, changed = strip_cast(x.args[0]), True
+        else:
+            break
+    return x if changed else None
+
+
+def _singleton_set_membership(f) -> tuple[ast.AST, ast.AST, bool] | None:
+    """
+    (k, K, truth): fact f says that ``k in K`` has the given truth value, written with set algebra on the one-element display {k}:
+    ``{k} <= K`` / ``K >= {k}`` / ``{k}.issubset(K)`` / ``K.issuperset({k})`` / ``{k} & K`` (truthy) are ``k in K``;
+    ``K.isdisjoint({k})`` / ``{k}.isdisjoint(K)`` is ``k not in K``.
+    """
+    def single(x: ast.AST) -> ast.AST | None:
+        x = strip_cast(x)
+        return x.elts[0] if isinstance(x, ast.Set) and len(x.elts) == 1 and not isinstance(x.elts[0], ast.Starred) else None
+
+    a = f.atom
+    if f.op == "lt" and isinstance(a, ast.Compare) and len(a.ops) == 1:
+        l, r = a.left, a.comparators[0]
+        # fact_of spells `x <= y` as not (y < x) and `x >= y` as not (x < y): the atom itself is true iff f.pos is False
+        if isinstance(a.ops[0], ast.LtE) and single(l) is not None and (f.left is r and f.right is l):
+            return single(l), r, not f.pos
+        if isinstance(a.ops[0], ast.GtE) and single(r) is not None and (f.left is l and f.right is r):
+            return single(r), l, not f.pos
+        return None
+    if f.op != "truthy":
+        return None
+    e = strip_cast(f.left)
+    if isinstance(e, ast.Call) and isinstance(e.func, ast.Attribute) and len(e.args) == 1 and not e.keywords and not isinstance(e.args[0], ast.Starred):
+        recv, other, name = e.func.value, e.args[0], e.func.attr
+        if name == "issubset" and single(recv) is not None:
+            return single(recv), other, f.pos
+        if name == "issuperset" and single(other) is not None:
+            return single(other), recv, f.pos
+        if name == "isdisjoint" and single(recv) is not None:
+            return single(recv), other, not f.pos
+        if name == "isdisjoint" and single(other) is not None:
+            return single(other), recv, not f.pos
+    if isinstance(e, ast.BinOp) and isinstance(e.op, ast.BitAnd):
+        for x, y in ((e.left, e.right), (e.right, e.left)):
+            if single(x) is not None:
+                return single(x), y, f.pos
+    return None
+
+
 def _xfacts(v: _View, site, *, depth: int = 3, local: bool = False, extra=(), fresh: bool = False) -> list[tuple]:
     """
     Facts that hold whenever `site` is evaluated in view v, in expanded form.  Besides the dominating CFG facts: a truthy / falsy
@@ -1064,6 +1219,10 @@ def _xfacts(v: _View, site, *, depth: int = 3, local: bool = False, extra=(), fr
     def emit(f, d: int) -> None:
         if not put((f.op, f.pos, v.expand(f.left), v.expand(f.right) if f.right is not None else None)) or d <= 0:
             return
+        sm = _singleton_set_membership(f)
+        if sm is not None:
+            emit(fact_of(ast.Compare(left=sm[0], ops=[ast.In()], comparators=[sm[1]]), sm[2]), d - 1)      # {k} <= K: k in K
+            return
         if f.op in ("eq", "is") and f.right is not None:
             for side, other in ((f.left, f.right), (f.right, f.left)):
                 k = const_value(strip_cast(other))
@@ -1081,6 +1240,10 @@ def _xfacts(v: _View, site, *, depth: int = 3, local: bool = False, extra=(), fr
                 if (k is True or k is False) and f.pos and not isinstance(const_value(strip_cast(side)), bool):
                     emit(fact_of(side, k), d - 1)        # `x is True` / `x == True` holds: x is truthy; `x is False`: x is falsy
             for side, other in ((f.left, f.right), (f.right, f.left)):
+                pk = _present_by_get(v, f.op, f.pos, side, other)
+                if pk is not None:
+                    emit(fact_of(pk, True), d - 1)      # T.get(k, D) is not D: k is in T
+            for side, other in ((f.left, f.right), (f.right, f.left)):
                 hc, k = _helper_call(v, side), _cv(v, other)
                 if hc is not None and k is not NOCONST:
                     if f.pos:
@@ -1090,6 +1253,10 @@ def _xfacts(v: _View, site, *, depth: int = 3, local: bool = False, extra=(), fr
                     for t2 in _return_facts(v.helper_of(hc), d - 1, may, None, fresh):
                         put(t2)
             return
+        if f.op == "in" and f.right is not None:
+            kb = _keys_base(v.fi.module, f.right)
+            if kb is not None:
+                emit(fact_of(ast.Compare(left=f.left, ops=[ast.In()], comparators=[kb]), f.pos), d - 1)     # x in T.keys() / set(T): x in T
         if f.op == "in" and not f.pos and f.right is not None:
             # x not in chain(A, B) / A.keys() | B.keys() / {*A, *B} / ChainMap(A, B): x is in none of them
             parts = _membership_parts(v.fi.module, resolve(v.fi, f.right))
@@ -1098,6 +1265,16 @@ def _xfacts(v: _View, site, *, depth: int = 3, local: bool = False, extra=(), fr
                     emit(fact_of(ast.Compare(left=f.left, ops=[ast.In()], comparators=[x]), False), d - 1)
             return
         if f.op != "truthy":
+            return
+        pk = _present_by_get(v, "truthy", f.pos, f.left, None)
+        if pk is not None:
+            emit(fact_of(pk, True), d - 1)              # T.get(k) is truthy: k is in T
+        e = strip_cast(f.left)
+        if isinstance(e, ast.NamedExpr):
+            e = strip_cast(e.value)
+        if isinstance(e, ast.Call) and isinstance(e.func, ast.Attribute) and e.func.attr == "__contains__" and len(e.args) == 1 and not e.keywords \
+                and not isinstance(e.args[0], ast.Starred):
+            emit(fact_of(ast.Compare(left=e.args[0], ops=[ast.In()], comparators=[e.func.value]), f.pos), d - 1)
             return
         e = strip_cast(f.left)
         if isinstance(e, ast.Name):
@@ -3779,6 +3956,12 @@ WITNESSES = [
     {"name": "established relay rewired by a late created", "file": TC, "rule": "relay-pairing",
      "old": "            if request.from_circuit_id not in self.exit_sockets:\n                self.logger.info(\"Created for unknown exit socket %s\", request.from_circuit_id)\n                return\n            session_keys = self.exit_sockets[request.from_circuit_id].hop.keys\n",
      "new": "            if request.from_circuit_id not in self.exit_sockets and request.from_circuit_id not in self.relay_from_to:\n                self.logger.info(\"Created for unknown exit socket %s\", request.from_circuit_id)\n                return\n            session_keys = (self.exit_sockets.get(request.from_circuit_id) or self.relay_from_to[request.from_circuit_id]).hop.keys\n"},
+    {"name": "presence test against a sentinel that is not the default of the lookup (never fails)", "file": TC, "rule": "relay-pairing",
+     "old": "            if request.from_circuit_id not in self.exit_sockets:\n                self.logger.info(\"Created for unknown exit socket %s\", request.from_circuit_id)\n                return\n            session_keys = self.exit_sockets[request.from_circuit_id].hop.keys\n",
+     "new": "            missing = object()\n            if (exit_socket := self.exit_sockets.get(request.from_circuit_id)) is missing:\n                self.logger.info(\"Created for unknown exit socket %s\", request.from_circuit_id)\n                return\n            session_keys = exit_socket.hop.keys\n"},
+    {"name": "set-algebra presence test inverted (route installed when the origin is no exit socket)", "file": TC, "rule": "relay-pairing",
+     "old": "            if request.from_circuit_id not in self.exit_sockets:\n                self.logger.info(\"Created for unknown exit socket %s\", request.from_circuit_id)\n                return\n            session_keys = self.exit_sockets[request.from_circuit_id].hop.keys\n",
+     "new": "            if not self.exit_sockets.keys().isdisjoint({request.from_circuit_id}):\n                self.logger.info(\"Created for unknown exit socket %s\", request.from_circuit_id)\n                return\n            session_keys = self.exit_sockets.get(request.from_circuit_id).hop.keys\n"},
     {"name": "create carries the DH part of a hop that is not (always) the pending hop", "rule": "selected-peer-key", "edits": [
         {"file": TC,
          "old": "        circuit.unverified_hop = Hop(first_hop, flags=self.candidates.get(first_hop))\n        circuit.unverified_hop.dh_secret, circuit.unverified_hop.dh_first_part = self.crypto.generate_diffie_secret()\n",
